@@ -2,7 +2,7 @@ package main
 
 // Tree-input decoders: a generated condition tree is handed to the real code as JSON
 // (UnmarshalConditionJSON / WitnessRule.UnmarshalJSON) and as a stack item (WitnessRule.FromStackItem);
-// accept/reject is compared with the model's `admit` and with the nesting / width bound (oracle).
+// accept/reject is compared with the model's `admits` and with the nesting / width bound (oracle).
 
 import (
 	"encoding/json"
